@@ -805,9 +805,47 @@ fn lex_extract_oracle<W: Write>(o: &mut Out<W>, t: &lx::Term) {
     }
 }
 
+/// C14 (lexical): the category of a lexical term is the category of what it folds to — towers of unary connecters
+/// (the fold must not "simplify" a compound away), sets and compounds of one component
+fn lex_fold_category_cases<W: Write>(o: &mut Out<W>, f: &str) {
+    let ef = efmt(f).unwrap();
+    let c = &ef.compound;
+    let atom = || lx::Term::new_atom("", "A");
+    let stmt = || lx::Term::new_statement(ef.statement.copula_inheritance, atom(), lx::Term::new_atom("", "B"));
+    let neg = |t: lx::Term| lx::Term::new_compound(c.connecter_negation, vec![t]);
+    let mut cases = vec![];
+    for core in [atom(), stmt(), lx::Term::new_set(c.brackets_set_extension.0, vec![atom()], c.brackets_set_extension.1)] {
+        let mut t = core;
+        for _ in 0..4 {
+            t = neg(t);
+            cases.push(t.clone());
+        }
+    }
+    for conn in [c.connecter_conjunction, c.connecter_disjunction, c.connecter_intersection_extension, c.connecter_product, c.connecter_conjunction_sequential] {
+        cases.push(lx::Term::new_compound(conn, vec![lx::Term::new_compound(conn, vec![atom()])]));
+        cases.push(lx::Term::new_compound(conn, vec![stmt()]));
+    }
+    for lt in cases {
+        o.run("lapi", "-", &ser::lterm(&lt));
+        if let Ok(et) = lt.clone().try_fold_into(ef) {
+            o.checked("C14");
+            if et.get_category() != lt.get_category() {
+                o.fail("C14", f, "category(x) != category(fold(x))", &ser::lterm(&lt));
+            }
+            // and it has as many components as the lexical term stores (nothing is simplified away)
+            if let lx::Term::Compound { terms, .. } = &lt {
+                if et.get_components().len() != terms.len() {
+                    o.fail("C14", f, "fold changed the number of components of a compound", &ser::lterm(&lt));
+                }
+            }
+        }
+    }
+}
+
 /// C02 / C15(lexical)
 fn lexvalues<W: Write>(r: &mut Rng, cfg: &TermCfg, n: usize, o: &mut Out<W>) {
     for f in FORMATS {
+        lex_fold_category_cases(o, f);
         let lf = lfmt(f).unwrap();
         let vocab = gen::vocab(lf, efmt(f).unwrap().atom.prefix_placeholder);
         for _ in 0..n {
@@ -1903,7 +1941,9 @@ fn ctor<W: Write>(r: &mut Rng, n: usize, o: &mut Out<W>) {
             o.fail("C13", "-", "is_valid / try_validate / validate disagree with 0<=x<=1", &ser::fl(x));
         }
         if iv {
-            let nroot = 1 + r.below(9);
+            // small degrees, and the degrees at which a conversion of `n` to a narrower or signed type would go wrong
+            const EDGE_N: [usize; 10] = [0, 1, 2, (1 << 31) - 1, 1 << 31, (1 << 32) - 1, 1 << 32, usize::MAX / 2, usize::MAX / 2 + 1, usize::MAX];
+            let nroot = if r.chance(1, 3) { *r.pick(&EDGE_N) } else { 1 + r.below(9) };
             let y = EvidentNumber::root(x, nroot);
             if !EvidentNumber::is_valid(&y) {
                 o.fail("C13", "-", "n-th root of a valid number is not valid", &format!("{} n={nroot}", ser::fl(x)));
